@@ -15,6 +15,7 @@ if TYPE_CHECKING:
 
 from autoarray.structures.arrays import array_2d_util
 from autoconf import conf
+from autoconf.tools.decorators import cached_property_names
 
 
 def to_new_array(func):
@@ -147,6 +148,8 @@ class AbstractNDArray(ABC):
         """
         new = self.__new__(self.__class__)
         new.__dict__.update(self.__dict__)
+        for name in cached_property_names(type(self)):
+            new.__dict__.pop(name, None)
         new._array = self._array.copy()
         return new
 
@@ -156,6 +159,8 @@ class AbstractNDArray(ABC):
         """
         new = self.__new__(self.__class__)
         new.__dict__.update(self.__dict__)
+        for name in cached_property_names(type(self)):
+            new.__dict__.pop(name, None)
         new._array = self._array.copy()
         return new
 
